@@ -1548,6 +1548,29 @@ fn jsx_member_expr_to_expr(JSXMemberExpr { obj, prop, span }: &JSXMemberExpr) ->
     })
 }
 
+/// Is `name` the statically known key of this property of an options object literal?
+fn is_option_named(prop: &PropOrSpread, name: &str) -> bool {
+    let PropOrSpread::Prop(prop) = prop else {
+        return false;
+    };
+    let key = match &**prop {
+        Prop::Shorthand(ident) => return ident.sym == name,
+        Prop::KeyValue(KeyValueProp { key, .. })
+        | Prop::Getter(GetterProp { key, .. })
+        | Prop::Setter(SetterProp { key, .. })
+        | Prop::Method(MethodProp { key, .. }) => key,
+        Prop::Assign(..) => return false,
+    };
+    match key {
+        PropName::Ident(ident) => ident.sym == name,
+        PropName::Str(str) => str.value == name,
+        PropName::Computed(ComputedPropName { expr, .. }) => {
+            matches!(&**expr, Expr::Lit(Lit::Str(str)) if str.value == name)
+        }
+        PropName::Num(..) | PropName::BigInt(..) => false,
+    }
+}
+
 /// Would an injected `name` option be discarded: is it already written as a key of the options
 /// object literal passed to `defineComponent`, or is the options argument a spread?
 fn has_define_component_option(call: &CallExpr, name: &str) -> bool {
@@ -1556,13 +1579,7 @@ fn has_define_component_option(call: &CallExpr, name: &str) -> bool {
             spread: Some(..), ..
         }) => true,
         Some(ExprOrSpread { spread: None, expr }) => match &**expr {
-            Expr::Object(object) => object.props.iter().any(|prop| {
-                prop.as_prop()
-                    .and_then(|prop| prop.as_key_value())
-                    .and_then(|key_value| key_value.key.as_ident())
-                    .map(|ident| ident.sym == name)
-                    .unwrap_or_default()
-            }),
+            Expr::Object(object) => object.props.iter().any(|prop| is_option_named(prop, name)),
             _ => false,
         },
         _ => false,
@@ -1581,13 +1598,7 @@ fn inject_define_component_option(call: &mut CallExpr, name: &'static str, value
 
     match options.map(|options| &mut *options.expr) {
         Some(Expr::Object(object)) => {
-            if !object.props.iter().any(|prop| {
-                prop.as_prop()
-                    .and_then(|prop| prop.as_key_value())
-                    .and_then(|key_value| key_value.key.as_ident())
-                    .map(|ident| ident.sym == name)
-                    .unwrap_or_default()
-            }) {
+            if !object.props.iter().any(|prop| is_option_named(prop, name)) {
                 object
                     .props
                     .push(PropOrSpread::Prop(Box::new(Prop::KeyValue(KeyValueProp {
